@@ -649,7 +649,10 @@ class Session(object):
 
 
 def _brief(x):
-    r = repr(x)
+    try:
+        r = repr(x)
+    except Exception as e:      # values whose repr raises or recurses too deep are generated on purpose
+        r = '<%s object, repr raises %s>' % (type(x).__name__, type(e).__name__)
     return r if len(r) <= 300 else r[:300] + '...(%d chars)' % len(r)
 
 
